@@ -108,6 +108,7 @@ func (node *Node) processUnconfirmedTx(ctx context.Context, tx handlers.TxData) 
 
 	// logger.Debug(ctx, "Tx repo (added %t) (newly safe %t) : %s", added, newlySafe, hash.String())
 
+	isNew := false
 	txState, err := handlerstorage.FetchTxState(ctx, node.store, *hash)
 	if err != nil {
 		if errors.Cause(err) != storage.ErrNotFound {
@@ -115,6 +116,7 @@ func (node *Node) processUnconfirmedTx(ctx context.Context, tx handlers.TxData) 
 		}
 
 		logger.Info(ctx, "Creating new tx state : %s", hash)
+		isNew = true
 
 		// Create new tx state
 		txState = &client.Tx{
@@ -144,6 +146,19 @@ func (node *Node) processUnconfirmedTx(ctx context.Context, tx handlers.TxData) 
 	}
 
 	logger.Info(ctx, "Saved tx state : %s", hash)
+
+	if !isNew {
+		// This tx was already sent to the handlers (before it confirmed or before a restart), so
+		// only notify of its current state.
+		update := &client.TxUpdate{
+			TxID:  *hash,
+			State: txState.State,
+		}
+		for _, handler := range node.handlers {
+			handler.HandleTxUpdate(ctx, update)
+		}
+		return nil
+	}
 
 	// Notify of new tx
 	for _, handler := range node.handlers {
